@@ -254,3 +254,242 @@ theorem exec_embed : ∀ (p : Prog) (env : Env) (sp : Bool) (x : St) (sp' : Bool
           exact ihk env spb (setStack (exec body (pushRef x1 r)).st rest) sp' ho.2 hck (by simpa [setStack] using hrne)
 
 end NiftyVerif.Rng
+
+namespace NiftyVerif.Rng
+
+theorem stack_ne_of_low {p : Prog} {x : St} (h : 1 ≤ (exec p x).low) : x.stack ≠ [] := by
+  intro e
+  have := (low_le p x).1
+  simp only [depth, e, List.length_nil] at this
+  omega
+
+/-- **embedding lemma, general form**: ANY body — raw pushes and pops included — that refers only to seed sequences it
+    spawned itself and whose canonical run never goes below depth 1 (it never pops the frame it started on) runs inside
+    arbitrary surroundings exactly as in the canonical state -/
+theorem exec_embed_nodip : ∀ (p : Prog) (env : Env) (sp : Bool) (x : St) (sp' : Bool),
+    closedFrom sp p = some sp' → 1 ≤ (exec p x).low →
+    ∃ sp'', (exec p (embed env sp x)).st = embed env sp'' (exec p x).st ∧
+      (exec p (embed env sp x)).out = (exec p x).out ∧ ((exec p x).out = .ok → sp'' = sp') := by
+  intro p
+  induction p with
+  | done =>
+    intro env sp x sp' hc _
+    simp only [closedFrom, Option.some.injEq] at hc
+    exact ⟨sp, by simp [exec], by simp [exec], fun _ => hc⟩
+  | raise t =>
+    intro env sp x sp' _ _
+    exact ⟨sp, by simp [exec], by simp [exec], fun h => by simp [exec] at h⟩
+  | push s k ih =>
+    intro env sp x sp' hc hl
+    have hspec : specOk sp s ∧ closedFrom sp k = some sp' := by
+      cases s with
+      | seed m => simp only [closedFrom] at hc; exact ⟨trivial, hc⟩
+      | last i =>
+        simp only [closedFrom] at hc
+        cases sp with
+        | false => simp at hc
+        | true => simp only [if_true] at hc; exact ⟨rfl, hc⟩
+    have hres := resolve_embed env sp x s hspec.1
+    cases hr : resolve x s with
+    | none =>
+      rw [hr] at hres
+      simp only [Option.map_none] at hres
+      refine ⟨sp, ?_, ?_, ?_⟩
+      · conv_lhs => unfold exec
+        conv_rhs => unfold exec
+        simp only [hres, hr]
+      · conv_lhs => unfold exec
+        conv_rhs => unfold exec
+        simp only [hres, hr]
+      · intro h
+        have : (exec (.push s k) x).out = .exc .indexError := by
+          conv_lhs => unfold exec
+          simp only [hr]
+        rw [this] at h; cases h
+    | some pr =>
+      obtain ⟨x1, r⟩ := pr
+      rw [hr] at hres
+      simp only [Option.map_some] at hres
+      have hL : exec (.push s k) (embed env sp x) =
+          ⟨(exec k (embed env sp (pushRef x1 r))).st, (exec k (embed env sp (pushRef x1 r))).out,
+            min (depth (embed env sp x)) (exec k (embed env sp (pushRef x1 r))).low⟩ := by
+        conv_lhs => unfold exec
+        simp only [hres, pushRef_embed]
+      have hR : exec (.push s k) x =
+          ⟨(exec k (pushRef x1 r)).st, (exec k (pushRef x1 r)).out, min (depth x) (exec k (pushRef x1 r)).low⟩ := by
+        conv_lhs => unfold exec
+        simp only [hr]
+      rw [hR] at hl
+      simp only at hl
+      rw [hL, hR]
+      exact ih env sp (pushRef x1 r) sp' hspec.2 (by omega)
+  | pop k ih =>
+    intro env sp x sp' hc hl
+    simp only [closedFrom] at hc
+    cases hs : x.stack with
+    | nil => exact absurd hs (stack_ne_of_low hl)
+    | cons f rest =>
+      have he : (embed env sp x).stack = shiftFrame env.pre.length f :: (rest.map (shiftFrame env.pre.length) ++ env.base) := by
+        rw [embed_stack, hs]; rfl
+      have hL : exec (.pop k) (embed env sp x) =
+          ⟨(exec k (embed env sp (setStack x rest))).st, (exec k (embed env sp (setStack x rest))).out,
+            min (depth (embed env sp x)) (exec k (embed env sp (setStack x rest))).low⟩ := by
+        conv_lhs => unfold exec
+        simp only [he, setStack_embed]
+      have hR : exec (.pop k) x =
+          ⟨(exec k (setStack x rest)).st, (exec k (setStack x rest)).out, min (depth x) (exec k (setStack x rest)).low⟩ := by
+        conv_lhs => unfold exec
+        simp only [hs]
+      rw [hR] at hl
+      simp only at hl
+      rw [hL, hR]
+      exact ih env sp (setStack x rest) sp' hc (by omega)
+  | draw req k ih =>
+    intro env sp x sp' hc hl
+    simp only [closedFrom] at hc
+    cases hs : x.stack with
+    | nil => exact absurd hs (stack_ne_of_low hl)
+    | cons f rest =>
+      have he : (embed env sp x).stack = shiftFrame env.pre.length f :: (rest.map (shiftFrame env.pre.length) ++ env.base) := by
+        rw [embed_stack, hs]; rfl
+      have h1 : exec (.draw req k) (embed env sp x) = exec k (embed env sp (drawSt x f rest req)) := by
+        conv_lhs => unfold exec
+        simp only [he, drawSt_embed]
+      have h2 : exec (.draw req k) x = exec k (drawSt x f rest req) := by
+        conv_lhs => unfold exec
+        simp only [hs]
+      rw [h2] at hl
+      rw [h1, h2]
+      exact ih env sp (drawSt x f rest req) sp' hc hl
+  | spawn n k ih =>
+    intro env sp x sp' hc hl
+    simp only [closedFrom] at hc
+    cases hs : x.stack with
+    | nil => exact absurd hs (stack_ne_of_low hl)
+    | cons f rest =>
+      have he : (embed env sp x).stack = shiftFrame env.pre.length f :: (rest.map (shiftFrame env.pre.length) ++ env.base) := by
+        rw [embed_stack, hs]; rfl
+      have h1 : exec (.spawn n k) (embed env sp x) = exec k (embed env true (spawnSt x f n)) := by
+        conv_lhs => unfold exec
+        simp only [he, spawnSt_embed]
+      have h2 : exec (.spawn n k) x = exec k (spawnSt x f n) := by
+        conv_lhs => unfold exec
+        simp only [hs]
+      rw [h2] at hl
+      rw [h1, h2]
+      exact ih env true (spawnSt x f n) sp' hc hl
+  | ctx s body k ihb ihk =>
+    intro env sp x sp' hc hl
+    have hspec : specOk sp s ∧ ∃ sp2, closedFrom sp body = some sp2 ∧ closedFrom sp2 k = some sp' := by
+      cases s with
+      | seed m =>
+        simp only [closedFrom] at hc
+        cases hb : closedFrom sp body with
+        | none => simp [hb] at hc
+        | some sp2 => simp only [hb] at hc; exact ⟨trivial, sp2, rfl, hc⟩
+      | last i =>
+        simp only [closedFrom] at hc
+        cases sp with
+        | false => simp at hc
+        | true =>
+          simp only [if_true] at hc
+          cases hb : closedFrom true body with
+          | none => simp [hb] at hc
+          | some sp2 => simp only [hb] at hc; exact ⟨rfl, sp2, rfl, hc⟩
+    obtain ⟨hsp, sp2, hcb, hck⟩ := hspec
+    have hres := resolve_embed env sp x s hsp
+    cases hr : resolve x s with
+    | none =>
+      rw [hr] at hres
+      simp only [Option.map_none] at hres
+      refine ⟨sp, ?_, ?_, ?_⟩
+      · conv_lhs => unfold exec
+        conv_rhs => unfold exec
+        simp only [hres, hr]
+      · conv_lhs => unfold exec
+        conv_rhs => unfold exec
+        simp only [hres, hr]
+      · intro h
+        have : (exec (.ctx s body k) x).out = .exc .indexError := by
+          conv_lhs => unfold exec
+          simp only [hr]
+        rw [this] at h; cases h
+    | some pr =>
+      obtain ⟨x1, r⟩ := pr
+      rw [hr] at hres
+      simp only [Option.map_some] at hres
+      cases hst : (exec body (pushRef x1 r)).st.stack with
+      | nil =>
+        exfalso
+        have : (exec (.ctx s body k) x).low = 0 := by
+          conv_lhs => unfold exec
+          simp only [hr, hst]
+        omega
+      | cons f rest =>
+        -- the canonical ctx, one step unfolded
+        have hR : exec (.ctx s body k) x =
+            (if rest.length ≠ depth x1 then
+               ⟨setStack (exec body (pushRef x1 r)).st rest, .exc .runtimeError,
+                 min (min (depth x) (exec body (pushRef x1 r)).low) rest.length⟩
+             else match (exec body (pushRef x1 r)).out with
+              | .exc e => ⟨setStack (exec body (pushRef x1 r)).st rest, .exc e,
+                  min (min (depth x) (exec body (pushRef x1 r)).low) rest.length⟩
+              | .ok =>
+                let rk := exec k (setStack (exec body (pushRef x1 r)).st rest)
+                ⟨rk.st, rk.out, min (min (min (depth x) (exec body (pushRef x1 r)).low) rest.length) rk.low⟩) := by
+          conv_lhs => unfold exec
+          simp only [hr, hst]
+          try rfl
+        have hlb : 1 ≤ (exec body (pushRef x1 r)).low := by
+          rw [hR] at hl
+          by_cases hne : rest.length ≠ depth x1
+          · rw [if_pos hne] at hl; simp only at hl; omega
+          · rw [if_neg hne] at hl
+            cases ho : (exec body (pushRef x1 r)).out with
+            | exc e => rw [ho] at hl; simp only at hl; omega
+            | ok => rw [ho] at hl; simp only at hl; omega
+        obtain ⟨spb, hb1, hb2, hb3⟩ := ihb env sp (pushRef x1 r) sp2 hcb hlb
+        have hstE : (exec body (embed env sp (pushRef x1 r))).st.stack =
+            shiftFrame env.pre.length f :: (rest.map (shiftFrame env.pre.length) ++ env.base) := by
+          rw [hb1, embed_stack, hst]; rfl
+        have hdE : ((rest.map (shiftFrame env.pre.length) ++ env.base).length ≠ depth (embed env sp x1)) ↔
+            (rest.length ≠ depth x1) := by
+          rw [depth_embed]; simp
+        have hL : exec (.ctx s body k) (embed env sp x) =
+            (if rest.length ≠ depth x1 then
+               ⟨embed env spb (setStack (exec body (pushRef x1 r)).st rest), .exc .runtimeError,
+                 min (min (depth (embed env sp x)) (exec body (embed env sp (pushRef x1 r))).low)
+                    (rest.map (shiftFrame env.pre.length) ++ env.base).length⟩
+             else match (exec body (embed env sp (pushRef x1 r))).out with
+              | .exc e => ⟨embed env spb (setStack (exec body (pushRef x1 r)).st rest), .exc e,
+                  min (min (depth (embed env sp x)) (exec body (embed env sp (pushRef x1 r))).low)
+                    (rest.map (shiftFrame env.pre.length) ++ env.base).length⟩
+              | .ok =>
+                let rk := exec k (embed env spb (setStack (exec body (pushRef x1 r)).st rest))
+                ⟨rk.st, rk.out, min (min (min (depth (embed env sp x)) (exec body (embed env sp (pushRef x1 r))).low)
+                    (rest.map (shiftFrame env.pre.length) ++ env.base).length) rk.low⟩) := by
+          conv_lhs => unfold exec
+          simp only [hres, pushRef_embed, hstE]
+          by_cases hne : rest.length ≠ depth x1
+          · rw [if_pos (hdE.mpr hne), if_pos hne]
+            simp only [hb1, setStack_embed]
+          · rw [if_neg (fun h => hne (hdE.mp h)), if_neg hne]
+            simp only [hb1, setStack_embed]
+            try rfl
+        rw [hL, hR, hb2]
+        by_cases hne : rest.length ≠ depth x1
+        · rw [if_pos hne, if_pos hne]
+          exact ⟨spb, rfl, rfl, fun h => by cases h⟩
+        · rw [if_neg hne, if_neg hne]
+          cases ho2 : (exec body (pushRef x1 r)).out with
+          | exc e => exact ⟨spb, rfl, rfl, fun h => by cases h⟩
+          | ok =>
+            simp only
+            have hspb : spb = sp2 := hb3 ho2
+            subst hspb
+            have hlk : 1 ≤ (exec k (setStack (exec body (pushRef x1 r)).st rest)).low := by
+              rw [hR, if_neg hne, ho2] at hl
+              simp only at hl; omega
+            exact ihk env spb (setStack (exec body (pushRef x1 r)).st rest) sp' hck hlk
+
+end NiftyVerif.Rng
